@@ -435,16 +435,17 @@ import pfhedge.nn as pnn
 from pfhedge.nn.modules.loss import HedgeLoss
 bad = []
 torch.manual_seed(0)
-samples = {"random": torch.randn(50, dtype=torch.float64) * 0.3 + 2.0, "ties": T([1.0, 1.0, 2.0, 2.0, 3.0]), "constant": torch.full((7,), 2.0, dtype=torch.float64),
+samples = {"large level, tight spread": 300.0 + torch.rand(60, dtype=torch.float64) * 0.0025, "random": torch.randn(50, dtype=torch.float64) * 0.3 + 2.0, "ties": T([1.0, 1.0, 2.0, 2.0, 3.0]), "constant": torch.full((7,), 2.0, dtype=torch.float64),
            "two-columns": torch.rand(30, 2, dtype=torch.float64) + 1.0}
 class RiskSeeking(HedgeLoss):            # user criterion on the default search: minus the mean of a CONVEX increasing utility, cash = log E exp(x) >= mean
     def forward(self, input, target=0.0): return -(input - target).exp().mean(0)
 for name, crit in (("entropic_risk", pnn.EntropicRiskMeasure(2.0)), ("entropic_loss", pnn.EntropicLoss(2.0)), ("expected_shortfall", pnn.ExpectedShortfall(0.3)), ("isoelastic", pnn.IsoelasticLoss(0.5)), ("user: risk seeking", RiskSeeking())):
     for sname, x in samples.items():
+        if sname.startswith("large level") and name.startswith("user"): continue        # exp(300): the search precision 1e-6 is a relative error 1e-6 of the criterion
         try:
             c = crit.cash(x)
             const = torch.ones_like(x) * c
-            if not torch.allclose(crit(const), crit(x), atol=1e-5): bad.append((name, sname, "criterion(cash) != criterion(sample)"))
+            if not torch.allclose(crit(const), crit(x), atol=1e-5, rtol=1e-9): bad.append((name, sname, "criterion(cash) != criterion(sample)"))
             if (c < x.min(0).values - 1e-6).any() or (c > x.max(0).values + 1e-6).any(): bad.append((name, sname, "cash outside [min,max]"))
         except Exception as e:
             bad.append((name, sname, type(e).__name__))
@@ -622,6 +623,12 @@ def cash_obs():
                 lossmod.bisect = old
         p = explore(run, DIMS, max_paths=8)[0]
         if p.outcome() != 'returns':
+            # out of the executor's reach on this tree (e.g. an operation without a contract in the shim): the bounded replay on real torch
+            # may still exhibit a failing input - reported then as a violation with that input, otherwise undecided
+            rp = _replay_cash()
+            if rp.get('confirmed'):
+                return Verdict('refuted', 'bounded: real torch replay (symbolic route out of reach: %s)' % str(p.exception)[:80], time.time() - t0,
+                               'default cash(): %s' % str(rp['real'].get('result', {}).get('got'))[:300], witness={'replay': str(rp['real'])[:300]}, replay=rp)
             return Verdict('unknown', 'engine', time.time() - t0, str((p.outcome(), str(p.exception)[:200], p.traceback[-400:])))
         res, m_, lossval = p.result
         n = tm.var('n', 'I')
@@ -684,6 +691,19 @@ for n_times in (1, 2):
         ref = sum(vals) / n_times
         if got.requires_grad: bad.append((n_times, type(crit).__name__, "price carries a graph"))
         if not torch.allclose(got, ref, atol=1e-7): bad.append((n_times, type(crit).__name__, "price %.6f, minus the cash of (portfolio, target = payoff with clauses) %.6f" % (float(got), float(ref))))
+# a derivative on two underliers priced with the default hedge (hedge=None): all its underliers, exactly as compute_portfolio uses
+d2 = EuropeanOption(BrownianStock(sigma=0.3, dt=0.01), strike=1.0, maturity=0.04)
+d2.register_underlier("second", BrownianStock(sigma=0.2, dt=0.01, cost=1e-3))
+torch.manual_seed(6)
+h2 = pnn.Hedger(torch.nn.Sequential(torch.nn.Linear(2, 2), torch.nn.Tanh()), ["log_moneyness", "time_to_maturity"], criterion=pnn.EntropicRiskMeasure(1.0))
+try:
+    torch.manual_seed(7); got = h2.price(d2, n_paths=40)
+    torch.manual_seed(7)
+    with torch.no_grad():
+        d2.simulate(n_paths=40); ref = -h2.criterion.cash(h2.compute_portfolio(d2), target=d2.payoff())
+    if not torch.allclose(got, ref, atol=1e-7): bad.append(("two underliers, default hedge", "price %.6f vs %.6f" % (float(got), float(ref))))
+except Exception as e:
+    bad.append(("two underliers, default hedge", type(e).__name__ + ": " + str(e)[:100]))
 result = {"got": [str(b) for b in bad], "ref": []}
 '''
 
@@ -714,20 +734,30 @@ def price_obs():
                 def cash(self, input, target=0.0):
                     calls.append((input, target, ctx().grad_enabled))
                     return Tensor.input('cash%d' % len(calls), (), torch.float64, origin='fresh')
-            for n_times in (1, 2):
+            for (n_times, n_ul) in ((1, 1), (2, 1), (1, 2)):
                 def run(c):
                     del calls[:]
                     d = TR.mk_sim_derivative(Tc, cost=SReal(tm.var('c1')))
+                    if n_ul == 2:
+                        # a derivative on two underliers priced with the DEFAULT hedge (hedge=None): all of its underliers, as compute_portfolio uses
+                        d.register_underlier('second', type(d.ul())(sigma=SReal(Hh.SIGMA), dt=SReal(Hh.DT), dtype=torch.float64, cost=SReal(tm.var('c2'))))
                     d.add_clause('shift', lambda dd, payoff: payoff + SReal(tm.var('kk')))
-                    hedger = pnn.Hedger(Hh.UserModel.make(1), ['log_moneyness', 'time_to_maturity'], criterion=Crit())
+                    hedger = pnn.Hedger(Hh.UserModel.make(n_ul), ['log_moneyness', 'time_to_maturity'], criterion=Crit())
                     r = hedger.price(d, n_paths=SInt(TR.NP), n_times=n_times, init_state=(SReal(tm.var('s0')),))
                     sims = [e for e in c.events if e[0] == 'simulate']
                     # what the cash was computed from, on the paths of the LAST simulation
                     portfolio = hedger.compute_portfolio(d)
                     payoff = d.payoff()
                     return r, list(calls), sims, portfolio, payoff
-                paths = explore(run, Hh.DIMS + [tm.ge(TR.NP, tm.IONE), tm.ge(tm.var('c1'), tm.ZERO), tm.gt(tm.var('M'), tm.ZERO)], max_paths=8)
+                paths = explore(run, Hh.DIMS + [tm.ge(TR.NP, tm.IONE), tm.ge(tm.var('c1'), tm.ZERO), tm.ge(tm.var('c2'), tm.ZERO), tm.gt(tm.var('M'), tm.ZERO)], max_paths=8)
                 if len(paths) != 1 or paths[0].outcome() != 'returns':
+                    # an exception raised by pfhedge's own code (not by the torch shim) where the contract says `price` returns
+                    own = [p for p in paths if p.outcome().startswith('raises:') and '/pfhedge/' in (p.traceback or '')[-900:] and 'torchlib' not in (p.traceback or '')[-400:]]
+                    if own:
+                        rp = _replay_price()
+                        if rp.get('confirmed'):
+                            return Verdict('refuted', 'path-exploration', time.time() - t0, 'price(n_times=%d, %d underlier(s), default hedge) raises %s' % (n_times, n_ul, str(own[0].exception)[:200]),
+                                           witness={'n_times': n_times, 'underliers': n_ul}, replay=rp)
                     return Verdict('unknown', 'engine', time.time() - t0, str([(p.outcome(), str(p.exception)[:200], p.traceback[-500:]) for p in paths]))
                 r, cs, sims, portfolio, payoff = paths[0].result
                 p = paths[0]
@@ -735,9 +765,9 @@ def price_obs():
                 n = tm.var('n', 'I')
                 facts = p.facts(Hh.DIMS + [tm.ge(TR.NP, tm.IONE)]) + [tm.le(tm.IZERO, n), tm.lt(n, TR.NP)]
                 inp, tgt, gm = cs[-1]
-                ok = (len(cs) == n_times and len(sims) == n_times and all(not g for _, _, g in cs) and not r.deps
+                ok = (len(cs) == n_times and all(not g for _, _, g in cs) and not r.deps
                       and smt.prove(facts, tm.eq(r.at(()), want), timeout_ms=5000).status == 'unsat'
-                      and all(lift(e[2]) is TR.NP for e in sims)
+                      and all(lift(e[2]) is TR.NP for e in sims) and len(sims) == n_times * n_ul
                       and fc.prove_eq(facts, inp.at((n,)), portfolio.at((n,)), timeout_ms=20000).status == 'unsat'
                       and fc.prove_eq(facts, tgt.at((n,)), payoff.at((n,)), timeout_ms=20000).status == 'unsat')
                 if not ok:
